@@ -25,7 +25,7 @@ RULE = ('values: seeded random JSON documents (nesting to depth 6, empty contain
         'distinct by that triple.')
 ASSUMPTIONS = ['json.loads of the standard library is the reference model; only spellings valid in both JSON and ES5 are '
                'generated (no U+2028/U+2029 raw in strings)']
-BUDGET_S = {'quick': 60, 'thorough': 600}
+BUDGET_S = {'quick': 90, 'thorough': 600}
 REQUIRED_HITS = ['ast_to_dict', 'LiteralEval', 'GroupAsMap', 'GroupAsList', 'wide_value', 'word_string']
 FLOOR = {'quick': 5000, 'thorough': 60000}
 
